@@ -8,6 +8,7 @@ import (
 	"net/http"
 	"net/http/httptest"
 	"net/url"
+	"regexp"
 	"strings"
 	"testing"
 	"time"
@@ -46,6 +47,9 @@ type rpStep struct {
 	Set   string `json:"outstanding,omitempty"`
 	// artifact correlation: this | previous | other | empty
 	ArtIRT string `json:"artifact_irt,omitempty"`
+	// deliver (xml | post): the serialiser on the way spells the first character of every InResponseTo value as a numeric character
+	// reference (&#105;d-... for id-...): the same attribute value, the same signed content
+	Respell bool `json:"irt_spelt_with_character_reference,omitempty"`
 }
 
 var rpSets = []string{"live", "live", "live", "empty", "only-this", "only-other", "empty-string", "empty-string+live", "near", "all-ever"}
@@ -84,7 +88,7 @@ func genReplay(g *Rng, tier string) *Plan {
 			steps = append(steps, st)
 			nresps++
 		case c == 2:
-			st := rpStep{Kind: "deliver", Resp: g.Intn(nresps), Entry: Pick(g, "xml", "xml", "post", "artifact", "artifact"), Set: Pick(g, rpSets...), ArtIRT: "this"}
+			st := rpStep{Kind: "deliver", Resp: g.Intn(nresps), Entry: Pick(g, "xml", "xml", "post", "artifact", "artifact"), Set: Pick(g, rpSets...), ArtIRT: "this", Respell: g.Bool(0.2)}
 			if st.Entry == "artifact" && g.Bool(0.4) {
 				st.ArtIRT = Pick(g, "previous", "other", "empty", "near", "case")
 			}
@@ -145,6 +149,21 @@ func (t *rpTransport) RoundTrip(r *http.Request) (*http.Response, error) {
 	}
 	body := wrapArtifactResponse(inner, "id-art", irt, idpEntity, saml.StatusSuccess, time.Now(), nil)
 	return &http.Response{StatusCode: 200, Status: "200 OK", Body: io.NopCloser(bytes.NewReader(body)), Header: http.Header{}, Request: r}, nil
+}
+
+var c04IRTAttr = regexp.MustCompile(`InResponseTo="([^"&])`)
+
+// c04Respell writes the first character of each InResponseTo value as a decimal or hexadecimal character reference.
+func c04Respell(b []byte) []byte {
+	n := 0
+	return c04IRTAttr.ReplaceAllFunc(b, func(m []byte) []byte {
+		n++
+		c := m[len(m)-1]
+		if n%2 == 0 {
+			return []byte(fmt.Sprintf(`InResponseTo="&#x%X;`, c))
+		}
+		return []byte(fmt.Sprintf(`InResponseTo="&#%d;`, c))
+	})
 }
 
 func execReplay(t *testing.T, p *Plan) *Result {
@@ -371,12 +390,17 @@ func execReplay(t *testing.T, p *Plan) *Result {
 				}
 				res.probe("inner-response-echoes-resolve-id")
 			}
+			wire := elBytes(r.el.Copy())
+			if st.Respell {
+				wire = c04Respell(wire)
+				res.fire("respelt-with-character-references")
+			}
 			pan := guard(func() {
 				switch st.Entry {
 				case "xml":
-					as, err = spv.ParseXMLResponse(elBytes(r.el.Copy()), passed, spv.AcsURL)
+					as, err = spv.ParseXMLResponse(wire, passed, spv.AcsURL)
 				case "post":
-					form := url.Values{"SAMLResponse": {base64.StdEncoding.EncodeToString(elBytes(r.el.Copy()))}}
+					form := url.Values{"SAMLResponse": {base64.StdEncoding.EncodeToString(wire)}}
 					hr := httptest.NewRequest("POST", spv.AcsURL.String(), strings.NewReader(form.Encode()))
 					hr.Header.Set("Content-Type", formCT)
 					_ = hr.ParseForm()
